@@ -15,7 +15,15 @@ func addSQLFeatures(g *gen) {
 			idType = Ref("", idDecl.Name)
 		}
 		if g.chance(0.85) {
-			s.Fields = append([]Field{{Name: idName, T: idType}}, s.Fields...)
+			// the id field may sit anywhere, also after unexported fields
+			pos := 0
+			if len(s.Fields) > 0 && g.chance(0.4) {
+				pos = 1 + g.rng.Intn(len(s.Fields))
+				g.c.AddFeat("sql:id-not-first")
+			}
+			fs := append([]Field{}, s.Fields[:pos]...)
+			fs = append(fs, Field{Name: idName, T: idType})
+			s.Fields = append(fs, s.Fields[pos:]...)
 			g.c.AddFeat("sql:id:" + idName)
 		} else {
 			g.c.AddFeat("sql:link-table")
